@@ -253,3 +253,48 @@ def run(ctx: common.Ctx):
         sig = str(p.get("dtype")) + ("/" + str(p.get("shape_kind")) if "shape_kind" in p else "")
         for kind, detail in r["fail"]:
             ctx.violation(f"{r['fn']}/{sig}/{kind}", f"{r['fn']}({p}): {kind}: {detail}", {"fn": r["fn"], "params": p, "kind": kind, "detail": detail})
+
+    # full / full_like with a fill value that is itself a (null or non-null) nullable scalar, in every spelling:
+    # NumPy masked constant, masked 0-d array, ndonnx nullable array; eager, placeholder shape and placeholder fill
+    nullable_fill_sweep(ctx)
+
+
+def nullable_fill_sweep(ctx):
+    ndx = impl.ndx
+    for dt in ["nint32", "nfloat64", "nbool", "nutf8", "nuint8", "nint64"]:
+        base = dt[1:]
+        payload = {"bool": True, "utf8": "pq"}.get(base, 7 if "int" in base else 2.5)
+        npdt = str if base == "utf8" else base
+        for null in (True, False):
+            fills = {"masked-0d": np.ma.masked_array(np.array(payload, dtype=npdt), mask=null),
+                     "ndonnx-0d": ndx.asarray(np.ma.masked_array(np.array(payload, dtype=npdt), mask=null))}
+            for fk, fill in fills.items():
+                for shape in [(2,), (0,), (2, 3), ()]:
+                    for sk in ("tuple", "placeholder-shape", "placeholder-fill", "full_like"):
+                        ident = ("nullable-fill", dt, null, fk, shape, sk)
+                        ref = np.ma.masked_array(np.full(shape, payload, dtype=npdt), mask=np.full(shape, null))
+                        try:
+                            if sk == "tuple":
+                                got = ndx.full(shape, fill).to_numpy()
+                            elif sk == "full_like":
+                                got = ndx.full_like(ndx.zeros(shape, dtype=impl.dt(dt)), fill).to_numpy()
+                            elif sk == "placeholder-shape":
+                                s_ = ndx.array(shape=(len(shape),), dtype=ndx.int64)
+                                out = ndx.full(s_, fill)
+                                got = impl.run_model(ndx.build({"s": s_}, {"o": out}), {"s": np.array(shape, dtype=np.int64)}, {"o": out})["o"]
+                            else:
+                                f_ = ndx.array(shape=(), dtype=impl.dt(dt))
+                                out = ndx.full(shape, f_)
+                                got = impl.run_model(ndx.build({"f": f_}, {"o": out}), impl.feed("f", np.ma.masked_array(np.array(payload, dtype=npdt), mask=null), dt), {"o": out})["o"]
+                        except Exception as e:
+                            ctx.case(ident, True)
+                            ctx.violation(f"full/{dt}/nullable-fill/raises", f"full({shape}, {fk} null={null}) [{sk}] raises {type(e).__name__}: {str(e)[:160]}",
+                                          {"dtype": dt, "null": null, "fill": fk, "shape": list(shape), "form": sk})
+                            continue
+                        ctx.case(ident, True)
+                        ctx.count("nullable-fill")
+                        cg, cr = impl.canon(got), impl.canon(ref)
+                        if cg[1:] != cr[1:] or (cg[0] != cr[0] and "str" not in (cg[0], cr[0])):
+                            ctx.violation(f"full/{dt}/nullable-fill/{'mask' if cg[3] != cr[3] else 'values'}",
+                                          f"full({shape}, {fk} null={null}) [{sk}] -> {cg}, expected {cr}",
+                                          {"dtype": dt, "null": null, "fill": fk, "shape": list(shape), "form": sk, "observed": str(cg), "expected": str(cr)})
